@@ -15,6 +15,7 @@ import GEVerif.Model.Linear
 import GEVerif.Model.TreeOps
 import GEVerif.Lemmas.SynM
 import GEVerif.Lemmas.Depth
+import GEVerif.Lemmas.DepthTotal
 
 namespace GEVerif.C03
 open GEVerif GEVerif.Depth
@@ -230,11 +231,139 @@ theorem C03_sequence_depth (g : Grammar) (dec : Decider)
     rw [distOf_start] at this; simpa using this
   exact (indOK_reachable g dec hc hk hD hmin v h).1
 
+/-! ### 4. Every feasible limit is usable
+
+Further decidable side conditions: `distAttained g` (the distance of an abstract class is
+attained by one of its alternatives) and `refinementsUsable g` (no refinement with an empty
+choice list, no `ListSizeBetween` on a non-list, no `Dependent(.., VarRange)` — the only source
+of `SynthesisException`). -/
+
+/-- With at least one alternative that fits the remaining budget the decider returns a
+production for EVERY state: it never hits the empty-candidate `AssertionError` (nor any
+other error). -/
+theorem C03_choose_total (g : Grammar) (dec : Decider) (key : Ty) (alts : List Ty) (ctx : Ctx)
+    (s : SynSt) (hk : dec.kind.depthLimited = true)
+    (hfit : ∃ t ∈ alts, ctx.depth + g.distOf t ≤ dec.maxDepth) :
+    ∃ t s', chooseProd g dec key alts ctx s = .ok t s' := by
+  obtain ⟨t, ht, hf⟩ := hfit
+  exact chooseProd_total g dec key alts ctx s hk ⟨t, ht, (fits_iff g dec ctx t).2 hf⟩
+
+/-- ... which is the case at every abstract class reached under the budget invariant, -/
+theorem C03_choose_total_abstract (g : Grammar) (dec : Decider) (n : Nat) (prods : List Nat)
+    (ctx : Ctx) (s : SynSt) (ha : distAttained g = true) (hk : dec.kind.depthLimited = true)
+    (hD : dec.maxDepth < INF) (hreg : g.reg.allNodes.contains (.cls n) = true)
+    (halts : g.altsOf n = some prods)
+    (hinv : ctx.depth + g.distOf (.cls n) ≤ dec.maxDepth) :
+    ∃ t s', chooseProd g dec (.cls n) (prods.map Ty.cls) ctx s = .ok t s' :=
+  chooseProd_total g dec _ _ ctx s hk (abstract_has_fit g dec ha hD n prods ctx hreg halts hinv)
+
+/-- ... and at every union (no assumption on the grammar: the minimum is attained). -/
+theorem C03_choose_total_union (g : Grammar) (dec : Decider) (ts : List Ty) (ctx : Ctx)
+    (s : SynSt) (hk : dec.kind.depthLimited = true) (hD : dec.maxDepth < INF)
+    (hinv : ctx.depth + g.distOf (.union ts) ≤ dec.maxDepth) :
+    ∃ t s', chooseProd g dec (.union ts) ts ctx s = .ok t s' :=
+  chooseProd_total g dec _ _ ctx s hk (union_has_fit g dec hD ts ctx hinv)
+
+/-- Under the budget invariant `create_node` never fails midway because of the depth budget:
+whatever error it returns (exhausted model fuel, `ValueError` of an empty integer range,
+`KeyError` of a dependent refinement, ...) is neither the `AssertionError` of an empty choice
+nor a `SynthesisException`. -/
+theorem C03_create_no_assertion (g : Grammar) (dec : Decider) (fuel : Nat) (ty : Ty) (ctx : Ctx)
+    (deps : List (String × Val)) (s s' : SynSt) (e : Err)
+    (hc : distConsistent g = true) (ha : distAttained g = true)
+    (hr : refinementsUsable g = true) (hk : dec.kind.depthLimited = true)
+    (hD : dec.maxDepth < INF)
+    (hinv : ctx.depth + g.distOf ty ≤ dec.maxDepth) (hty : tyUsable ty = true)
+    (h : createNode g dec fuel ty ctx deps s = .err e s') :
+    e ≠ .foreign "AssertionError" ∧ e ≠ .synthesis :=
+  badErr_false e ((noBadP_all g dec hc ha hr hk hD fuel).1 ty ctx deps s e s' h hinv hty)
+
+/-- An accepted limit is usable by the initialisers and the GE / SGE mappings ... -/
+theorem C03_random_tree_no_assertion (g : Grammar) (dec : Decider) (fuel : Nat) (s s' : SynSt)
+    (e : Err) (hc : distConsistent g = true) (ha : distAttained g = true)
+    (hr : refinementsUsable g = true) (hk : dec.kind.depthLimited = true)
+    (hD : dec.maxDepth < INF) (hv : deciderValid g dec = true)
+    (h : randomTree g dec fuel s = .err e s') :
+    e ≠ .foreign "AssertionError" ∧ e ≠ .synthesis :=
+  C03_create_no_assertion g dec fuel _ _ _ s s' e hc ha hr hk hD
+    (C03_valid_gives_invariant g dec hk hv) rfl h
+
+theorem C03_mapGE_no_assertion (g : Grammar) (dec : Decider) (fuel : Nat) (dna : List Int)
+    (expanding : Bool) (s' : SynSt) (e : Err)
+    (hc : distConsistent g = true) (ha : distAttained g = true)
+    (hr : refinementsUsable g = true) (hk : dec.kind.depthLimited = true)
+    (hD : dec.maxDepth < INF) (hv : deciderValid g dec = true)
+    (h : mapGE g dec fuel dna expanding = .err e s') :
+    e ≠ .foreign "AssertionError" ∧ e ≠ .synthesis :=
+  C03_random_tree_no_assertion g dec fuel _ s' e hc ha hr hk hD hv h
+
+theorem C03_mapSGE_no_assertion (g : Grammar) (dec : Decider) (fuel : Nat) (dna : SGEDna)
+    (expanding : Bool) (s' : SynSt) (e : Err)
+    (hc : distConsistent g = true) (ha : distAttained g = true)
+    (hr : refinementsUsable g = true) (hk : dec.kind.depthLimited = true)
+    (hD : dec.maxDepth < INF) (hv : deciderValid g dec = true)
+    (h : mapSGE g dec fuel dna expanding = .err e s') :
+    e ≠ .foreign "AssertionError" ∧ e ≠ .synthesis :=
+  C03_mapGE_no_assertion g dec fuel _ expanding s' e hc ha hr hk hD hv h
+
+/-- ... and by the dynamic-SGE mapping, whose only depth-related failure is the up-front
+library error. -/
+theorem C03_mapDSGE_no_assertion (g : Grammar) (maxDepth fuel : Nat) (dna : DSGEDna)
+    (shared : Script) (s' : SynSt) (e : Err)
+    (hc : distConsistent g = true) (ha : distAttained g = true)
+    (hr : refinementsUsable g = true) (hD : maxDepth < INF)
+    (h : mapDSGE g maxDepth fuel dna shared = .err e s') :
+    e ≠ .foreign "AssertionError" ∧ e ≠ .synthesis := by
+  unfold mapDSGE at h
+  dsimp only at h
+  by_cases hv : deciderValid g { kind := .dsge, maxDepth := maxDepth } = true
+  · rw [if_neg (by simp [hv])] at h
+    exact C03_random_tree_no_assertion g { kind := .dsge, maxDepth := maxDepth } fuel _ s' e
+      hc ha hr rfl hD hv h
+  · rw [if_pos (by simpa using hv)] at h
+    cases h
+    exact badErr_false _ rfl
+
+/-- Variation on individuals satisfying `IndOK` (all `Reachable` ones do) never fails midway
+because of the depth budget either. -/
+theorem C03_variation_no_assertion (g : Grammar) (dec : Decider) (fuel : Nat) (p1 p2 : Val)
+    (hc : distConsistent g = true) (ha : distAttained g = true)
+    (hr : refinementsUsable g = true) (hk : dec.kind.depthLimited = true)
+    (hD : dec.maxDepth < INF) (hv : deciderValid g dec = true)
+    (h1 : IndOK g dec p1) (h2 : IndOK g dec p2) :
+    (∀ s s' e, treeMutate g dec fuel p1 s = .err e s' →
+      e ≠ .foreign "AssertionError" ∧ e ≠ .synthesis) ∧
+    (∀ s s' e, treeCrossover g dec fuel p1 p2 s = .err e s' →
+      e ≠ .foreign "AssertionError" ∧ e ≠ .synthesis) := by
+  have hmin : g.minTreeDepth ≤ dec.maxDepth := by
+    have := C03_valid_gives_invariant g dec hk hv
+    rw [distOf_start] at this; simpa using this
+  constructor
+  · intro s s' e h
+    exact badErr_false e (mutateRoot_noBad g dec fuel p1 none s s' e hc ha hr hk hD hmin h1 h)
+  · intro s s' e h
+    unfold treeCrossover at h
+    rcases SynM.bind_err _ _ _ _ _ h with h | ⟨a, s1, _, h⟩
+    · exact badErr_false e (mutateRoot_noBad g dec fuel p1 (some p2) s s' e hc ha hr hk hD hmin h1 h)
+    rcases SynM.bind_err _ _ _ _ _ h with h | ⟨b, s2, _, h⟩
+    · exact badErr_false e (mutateRoot_noBad g dec fuel p2 (some p1) s1 s' e hc ha hr hk hD hmin h2 h)
+    · exact absurd h (pure_not_err _ _ _ _)
+
+/-- The two side conditions on the distance table are not assumptions about a particular
+analysis: they hold for EVERY solution of the distance equations (`isFixpoint`, the subject of
+C05), given that only abstract classes carry registered alternatives. -/
+theorem C03_fixpoint_hypotheses (g : Grammar)
+    (hfix : isFixpoint g.spec g.reg g.dist = true) :
+    distConsistent g = true ∧ (altsAbstract g = true → distAttained g = true) :=
+  ⟨fixpoint_consistent g hfix, fixpoint_attained g hfix⟩
+
 /-! ### Non-vacuity: the hypotheses hold on a concrete analysed grammar with an abstract class,
 recursion, a list-of-abstract field and a union; the limit is reached exactly -/
 
 example : distConsistent exG = true := by decide
 example : exG.minTreeDepth = 1 := by decide
+example : isFixpoint exG.spec exG.reg exG.dist = true ∧ altsAbstract exG = true := by decide
+example : distAttained exG = true ∧ refinementsUsable exG = true := by decide
 example : deciderValid exG ⟨.grow, 1⟩ = true ∧ deciderValid exG ⟨.grow, 0⟩ = false := by decide
 -- frontier: the limit equals the grammar minimum
 example : depthOf (randomTree exG ⟨.grow, 1⟩ 50 (exSt [])) = some 1 := by decide
